@@ -15,6 +15,7 @@ type T struct {
 	b    bool
 	name string
 	sort byte
+	lo, hi *big.Int // variables only: range asserted with the declaration
 }
 
 var (
@@ -57,6 +58,10 @@ func I(n int64) *T            { return mk(&T{op: "const", n: big.NewInt(n), sort
 func IB(n *big.Int) *T        { return mk(&T{op: "const", n: new(big.Int).Set(n), sort: 'I'}) }
 func B(b bool) *T             { if b { return tTrue }; return tFalse }
 func Var(n string, s byte) *T { return mk(&T{op: "var", name: n, sort: s}) }
+
+// VarR: an integer variable with an inclusive range.
+func VarR(n string, lo, hi *big.Int) *T { return mk(&T{op: "var", name: n, sort: 'I', lo: lo, hi: hi}) }
+func VarByte(n string) *T              { return VarR(n, big.NewInt(0), big.NewInt(255)) }
 func (t *T) isC() bool        { return t.op == "const" }
 
 func app(op string, sort byte, args ...*T) *T { return mk(&T{op: op, args: args, sort: sort}) }
@@ -246,8 +251,15 @@ func emit(sb *strings.Builder, done map[int]bool, t *T) string {
 	}
 	done[t.id] = true
 	// z3 expands define-fun as a macro (20x slower on shared DAGs): name the node with a constant instead
-	fmt.Fprintf(sb, "(declare-const %s %s)\n(assert (= %s (%s %s)))\n", name, sortName(t.sort), name, t.op, strings.Join(args, " "))
+	fmt.Fprintf(sb, "(declare-const %s %s)\n(assert (= %s (%s %s)))\n", name, sortName(t.sort), name, smtOp(t.op), strings.Join(args, " "))
 	return name
+}
+
+func smtOp(op string) string {
+	if op == "bdd" {
+		return "ite"
+	}
+	return op
 }
 
 func dagSize(t *T, seen map[int]bool) int {
@@ -303,4 +315,58 @@ func ModT(a, b *T) *T {
 		return IB(new(big.Int).Rem(a.n, b.n))
 	}
 	return Sub(a, Mul(b, QuoT(a, b)))
+}
+
+// emitScoped: variables are declared globally (decl), every other node is defined inside the current
+// push scope (q) unless already defined there.
+func emitScoped(decl, q *strings.Builder, declared, local map[int]bool, t *T) string {
+	switch t.op {
+	case "const":
+		return emit(decl, declared, t)
+	case "var":
+		return emit(decl, declared, t)
+	}
+	name := fmt.Sprintf("n%d", t.id)
+	if local[t.id] {
+		return name
+	}
+	args := make([]string, len(t.args))
+	for i, a := range t.args {
+		args[i] = emitScoped(decl, q, declared, local, a)
+	}
+	local[t.id] = true
+	fmt.Fprintf(q, "(declare-const %s %s)\n(assert (= %s (%s %s)))\n", name, sortName(t.sort), name, smtOp(t.op), strings.Join(args, " "))
+	return name
+}
+
+// spine returns the conjuncts of a left-nested conjunction chain, outermost first.
+func spine(t *T) []*T {
+	var rev []*T
+	for t.op == "and" {
+		rev = append(rev, t.args[1])
+		t = t.args[0]
+	}
+	rev = append(rev, t)
+	for l, r := 0, len(rev)-1; l < r; l, r = l+1, r-1 {
+		rev[l], rev[r] = rev[r], rev[l]
+	}
+	return rev
+}
+
+// OrFactored builds a ∨ b for two path conditions that share a prefix of conjuncts: prefix ∧ (restA ∨ restB).
+func OrFactored(a, b *T) *T {
+	sa, sb := spine(a), spine(b)
+	k := 0
+	for k < len(sa) && k < len(sb) && sa[k] == sb[k] {
+		k++
+	}
+	return And(conj(sa[:k]), Or(conj(sa[k:]), conj(sb[k:])))
+}
+
+func conj(xs []*T) *T {
+	r := tTrue
+	for _, x := range xs {
+		r = And(r, x)
+	}
+	return r
 }
